@@ -103,7 +103,7 @@ def native_lib(primary, support=(), flags=(), extra_c='', name=None, expose_stat
     cflags = ['-O0', '-fPIC', '-g0', '-Wno-everything', '-ffp-contract=off'] + (['-fsanitize=address'] if sanitize else [])
     for tu in primary + support:
         keys.append(preprocessed_hash(tu, list(flags)))
-    h = hashlib.sha256(('|'.join(keys) + extra_c + repr(flags) + repr(primary) + repr(sanitize) + STUB_PRELUDE).encode()).hexdigest()[:24]
+    h = hashlib.sha256(('|'.join(keys) + extra_c + repr(flags) + repr(primary) + repr(sanitize) + 'v2' + STUB_PRELUDE).encode()).hexdigest()[:24]
     so = os.path.join(WORK, 'lib_%s_%s.so' % (name or 'native', h))
     if os.path.exists(so):
         return so
@@ -112,7 +112,7 @@ def native_lib(primary, support=(), flags=(), extra_c='', name=None, expose_stat
         for tu in primary:
             src = _src(tu)
             ll = os.path.join(tmpd, os.path.basename(src) + '.ll')
-            _run(_cc(src) + ['-S', '-emit-llvm', '-O0', '-ffp-contract=off', '-Wno-everything'] + INCLUDES + list(flags) + [src, '-o', ll])
+            _run(_cc(src) + ['-S', '-emit-llvm', '-O0', '-fPIC', '-ffp-contract=off', '-Wno-everything'] + (['-fsanitize=address'] if sanitize else []) + INCLUDES + list(flags) + [src, '-o', ll])
             if expose_static:
                 txt = open(ll).read()
                 txt = re.sub(r'^define internal ', 'define ', txt, flags=re.M)
